@@ -41,6 +41,8 @@ for line in sorted(open(os.path.join(ROOT, 'mutants/RESULTS-seeded.txt'))):
     parts = line.split()
     if len(parts) < 2: continue
     name = parts[1]
+    if name.startswith('benign-'):
+        continue
     m = re.search(r'\| (C\d\d) exit=(\d) class=(\S+) replay_exit=(\S+)', line)
     if not m: continue
     engine = {'C07': 'streamsim', 'C08': 'streamsim', 'C18': 'streamsim fault enumeration', 'C17': 'threadsim'}[m.group(1)]
@@ -64,6 +66,6 @@ head = '| change | what it does / what it needs | caught by | violation class |\
 i = d.index(head) + len(head)
 j = d.index('\n\n', i)
 d = d[:i] + '\n'.join(rows) + d[j:]
-d = re.sub(r'\d+ of \d+ are detected', '%d of %d are detected' % (sum(1 for l in open(os.path.join(ROOT, 'mutants/RESULTS-seeded.txt')) if l.startswith('OK ')), len(rows)), d)
+d = re.sub(r'\d+ of \d+ are detected', '%d of %d are detected' % (sum(1 for l in open(os.path.join(ROOT, 'mutants/RESULTS-seeded.txt')) if l.startswith('OK ') and ' benign-' not in l), len(rows)), d)
 open(os.path.join(ROOT, 'DESIGN.md'), 'w').write(d)
 print(len(rows), 'rows')
